@@ -883,6 +883,9 @@ func (l *lane) runCase(c *execCase) bool {
 		default:
 			r.Count("c_status_other", 1)
 		}
+		if c.ID == "exec/0" || c.ID == "exec/1" {
+			r.Sample(map[string]interface{}{"case": c.ID, "monitor": "c", "kind": c.Kind, "class": class, "body_hex": hexShort(body), "http_status": status, "worker_alive": true})
+		}
 		l.refresh()
 		l.since++
 		if l.since >= 25 {
